@@ -116,6 +116,36 @@ func elemsKey(p *gnmi.Path) string {
 	return strings.Join(parts, "\x00")
 }
 
+// covers tells whether the node addressed by del is the leaf or one of its ancestors: element-wise prefix,
+// where an element of del given without (some of) its keys addresses every entry of that list
+func covers(del, leaf string) bool {
+	if del == "" {
+		return true
+	}
+	de, le := strings.Split(del, "\x00"), strings.Split(leaf, "\x00")
+	if len(de) > len(le) {
+		return false
+	}
+	for i, e := range de {
+		dk, lk := strings.Split(e, "\x01"), strings.Split(le[i], "\x01")
+		if dk[0] != lk[0] {
+			return false
+		}
+		for _, k := range dk[1:] {
+			found := false
+			for _, k2 := range lk[1:] {
+				if k == k2 {
+					found = true
+				}
+			}
+			if !found {
+				return false
+			}
+		}
+	}
+	return true
+}
+
 // Set applies a SetRequest with gNMI semantics (delete = node and descendants at element boundaries)
 func (d *Device) Set(ctx context.Context, req *gnmi.SetRequest) (*gnmi.SetResponse, error) {
 	d.mu.Lock()
@@ -146,9 +176,8 @@ func (d *Device) Set(ctx context.Context, req *gnmi.SetRequest) (*gnmi.SetRespon
 			d.MaxElect = r.ElectionID
 		}
 		for _, p := range req.Delete {
-			k := elemsKey(p)
 			for x := range d.Tree {
-				if x == k || strings.HasPrefix(x, k+"\x00") {
+				if covers(elemsKey(p), x) {
 					delete(d.Tree, x)
 				}
 			}
